@@ -215,6 +215,22 @@ def erasePaths (rep : String) : String :=
     | [n, _, g] => n ++ "~~" ++ g
     | _ => l)
 
+/-- some glyph went through the raw `entry` API (created: `eo`, removed: `er`) and LATER, in the same layer, through
+    `insert_glyph` under the same name (`ig`) or became the target of a `rename_glyph` (`mg`): from then on the indices
+    of that glyph are in step again (model: `insertGlyph` looks at `contents`, not at the glyph map), and the recorded
+    `entry` findings no longer speak about it -/
+def entryResynced : List String → Bool
+  | [] => false
+  | t :: rest =>
+    (match t.splitOn "." with
+     | [k, li, g] =>
+       (k = "eo" || k = "er") && rest.any (fun u =>
+         match u.splitOn "." with
+         | ["ig", li', g'] => li' = li && g' = g
+         | ["mg", li', _, n, _] => li' = li && n = g
+         | _ => false)
+     | _ => false) || entryResynced rest
+
 def run (inp obs : List String) : Verdict :=
   match inp with
   | _ :: lcTok :: initTok :: opToks =>
@@ -271,7 +287,10 @@ def run (inp obs : List String) : Verdict :=
         -- (compared with the directories erased: a harmless difference in WHICH free directory was handed out must not
         -- turn the recorded finding into an unrecognised one)
         let predicted := mSave == saveTok && (saveTok ≠ "save:ok" || erasePaths mRep == erasePaths repTok)
-        let feats := (if usedEntry && unsynced && predicted then ["entry-unsynced"] else [])
+        -- a failure the model does NOT predict in a history that put an `entry` glyph back through `insert_glyph` /
+        -- a rename target is labelled `entry-resynced`: never one of the recorded findings
+        let feats := (if usedEntry && unsynced && predicted then ["entry-unsynced"]
+                      else if usedEntry && !predicted && entryResynced opToks then ["entry-resynced"] else [])
         let finSpec :=
           if saveTok = "save:ok" && loadTok = "load:ok" && repTok = expected then []
           else
@@ -287,6 +306,15 @@ def run (inp obs : List String) : Verdict :=
            "layers" ++ toString (min acc.st.layers.length 5)] ++
           (if acc.errs > 0 then ["has-err"] else []) ++
           (if usedEntry then ["uses-entry"] else []) ++
+          (if usedEntry && entryResynced opToks then ["entry-resynced"] else []) ++
+          (if initTok = "new" then [] else
+             match (((initTok.splitOn ":").getD 1 "").splitOn ";").findIdx?
+                     (fun l => (l.splitOn "~").getD 1 "" = hexOfStr glyphsDir) with
+             | some 0 => ["default-listed-first"]
+             | some _ => ["default-listed-later"]
+             | none => []) ++
+          (if (opToks.zip restObs).any (fun e => (e.1.startsWith "ml." || e.1.startsWith "mg.") && e.2.startsWith "err:Invalid")
+             then ["refused-invalid"] else []) ++
           (dedup (opToks.map fun t => "op-" ++ (t.take 2).toString)) ++
           (if opToks.length ≥ 2 then ["nt"] else [])
         { agree := acc.agree && finAgree,
